@@ -90,6 +90,7 @@ func (o *Object) String() string { return fmt.Sprintf("%s#%d", o.Name, o.ID) }
 type State struct {
 	mem    map[*Object]Value
 	pc     *Term
+	headObj int   // number of objects allocated when the head of the innermost annotated loop was last crossed (iterfresh)
 	headPC *Term // path condition at the head of the innermost annotated loop entered (nil: none); used by "+ forget"
 	path   *Term // branch decisions only (conjunction of the conditions of the branches taken); nil = true
 	ghosts map[string]*Term
@@ -108,7 +109,7 @@ type deferredCall struct {
 }
 
 func (s *State) clone() *State {
-	n := &State{mem: make(map[*Object]Value, len(s.mem)), pc: s.pc, path: s.path, headPC: s.headPC, ghosts: map[string]*Term{}, srcVar: map[string]Value{}, srcAdr: map[string]bool{}}
+	n := &State{mem: make(map[*Object]Value, len(s.mem)), pc: s.pc, path: s.path, headPC: s.headPC, headObj: s.headObj, ghosts: map[string]*Term{}, srcVar: map[string]Value{}, srcAdr: map[string]bool{}}
 	for k, v := range s.mem {
 		n.mem[k] = v
 	}
